@@ -232,10 +232,19 @@ func allJournalsWithPaths(resolved *include.ResolvedJournal, currentPath string,
 		for path, journal := range resolved.Files {
 			result[path] = journal
 		}
-		if resolved.Primary != nil && currentPath != "" {
-			result[currentPath] = resolved.Primary
+		// The primary journal belongs to the file it was read from. With a
+		// workspace that is the root journal, which need not be the document
+		// the request came from.
+		primaryPath := resolved.PrimaryPath
+		if primaryPath == "" {
+			primaryPath = currentPath
 		}
-	} else if currentJournal != nil && currentPath != "" {
+		if resolved.Primary != nil && primaryPath != "" {
+			result[primaryPath] = resolved.Primary
+		}
+	}
+	// the requesting document is always searched, with its current content
+	if currentJournal != nil && currentPath != "" {
 		result[currentPath] = currentJournal
 	}
 
